@@ -178,3 +178,60 @@ Qed.
 
 Lemma g_numeric : g2 <= 3 * u53 /\ g3 <= 4 * u53 /\ g4 <= 5 * u53 /\ h2 <= 4 * u53 /\ h3 <= 5 * u53 /\ h4 <= 6 * u53.
 Proof. pose proof u53_pos. pose proof u53_small. unfold g4, g3, g2, h4, h3, h2. repeat split; nra. Qed.
+
+(* ---- componentwise operations: one rounding per component ---- *)
+Definition den3f {sq} (r : @res (FLib sq)) : option (R * R * R) :=
+  match r with RAzL XY LZ a b c | RAzLN XY LZ a b c => Some (a, b, c) | _ => None end.
+
+Lemma rnd_err x : Rabs (rnd x - x) <= u53 * Rabs x.
+Proof. destruct (rnd_rel x) as [e [B E]]. rewrite E. replace (x * (1 + e) - x) with (x * e) by ring. rewrite Rabs_mult. pose proof (Rabs_pos x). nra. Qed.
+
+Lemma add3_float_error sq x1 y1 z1 x2 y2 z2 :
+  exists a b c, den3f (@T_spatial_add (FLib sq) XY LZ XY LZ x1 y1 z1 x2 y2 z2) = Some (a, b, c) /\
+    Rabs (a - (x1 + x2)) <= u53 * Rabs (x1 + x2) /\ Rabs (b - (y1 + y2)) <= u53 * Rabs (y1 + y2) /\ Rabs (c - (z1 + z2)) <= u53 * Rabs (z1 + z2).
+Proof. do 3 eexists. split; [vunfold; funfold; reflexivity|]. repeat split; apply rnd_err. Qed.
+
+Lemma subtract3_float_error sq x1 y1 z1 x2 y2 z2 :
+  exists a b c, den3f (@T_spatial_subtract (FLib sq) XY LZ XY LZ x1 y1 z1 x2 y2 z2) = Some (a, b, c) /\
+    Rabs (a - (x1 - x2)) <= u53 * Rabs (x1 - x2) /\ Rabs (b - (y1 - y2)) <= u53 * Rabs (y1 - y2) /\ Rabs (c - (z1 - z2)) <= u53 * Rabs (z1 - z2).
+Proof. do 3 eexists. split; [vunfold; funfold; reflexivity|]. repeat split; apply rnd_err. Qed.
+
+(* cross product: each component is fl(fl(p q) - fl(r s)) *)
+Lemma diff2 p q r s : Rabs (rnd (rnd (p * q) - rnd (r * s)) - (p * q - r * s)) <= g2 * (Rabs (p * q) + Rabs (r * s)).
+Proof.
+  destruct (rnd_rel (p * q)) as [e1 [B1 E1]]. destruct (rnd_rel (r * s)) as [e2 [B2 E2]]. rewrite E1, E2.
+  destruct (rnd_rel (p * q * (1 + e1) - r * s * (1 + e2))) as [e3 [B3 E3]]. rewrite E3.
+  replace ((p * q * (1 + e1) - r * s * (1 + e2)) * (1 + e3) - (p * q - r * s))
+    with ((p * q) * ((1 + e1) * (1 + e3) - 1) + (r * s) * (- ((1 + e2) * (1 + e3) - 1))) by ring.
+  apply weighted2; rewrite ?Rabs_Ropp; apply mulerr; assumption.
+Qed.
+Lemma cross_float_error sq x1 y1 z1 x2 y2 z2 :
+  exists a b c, den3f (@T_spatial_cross (FLib sq) XY LZ XY LZ x1 y1 z1 x2 y2 z2) = Some (a, b, c) /\
+    Rabs (a - (y1 * z2 - z1 * y2)) <= g2 * (Rabs (y1 * z2) + Rabs (z1 * y2)) /\
+    Rabs (b - (z1 * x2 - x1 * z2)) <= g2 * (Rabs (z1 * x2) + Rabs (x1 * z2)) /\
+    Rabs (c - (x1 * y2 - y1 * x2)) <= g2 * (Rabs (x1 * y2) + Rabs (y1 * x2)).
+Proof. do 3 eexists. split; [vunfold; funfold; reflexivity|]. repeat split; apply diff2. Qed.
+
+(* tau2 = fl(sq t - mag2): relative to t^2 + |p|^2 (the cancellation t^2 ~ |p|^2 is the ill-conditioned case) *)
+Lemma tau2_float_error sq x y z t : sq_ok sq ->
+  exists v e, numf (@T_lorentz_tau2 (FLib sq) XY LZ TT x y z t) = Some v /\ numr (@T_lorentz_tau2 RLib XY LZ TT x y z t) = Some e /\
+    e = t * t - (x * x + y * y + z * z) /\ Rabs (v - e) <= h4 * (t * t + x * x + y * y + z * z).
+Proof.
+  intros Hsq. do 2 eexists. split; [vunfold; funfold; reflexivity|]. split; [vunfold; runfold; reflexivity|]. split; [reflexivity|].
+  destruct (Hsq x) as [s1 [S1 Q1]]. destruct (Hsq y) as [s2 [S2 Q2]]. destruct (Hsq z) as [s3 [S3 Q3]]. destruct (Hsq t) as [s4 [S4 Q4]]. rewrite Q1, Q2, Q3, Q4.
+  destruct (rnd_rel (x * x * (1 + s1) + y * y * (1 + s2))) as [e4 [B4 E4]]. rewrite E4.
+  destruct (rnd_rel ((x * x * (1 + s1) + y * y * (1 + s2)) * (1 + e4) + z * z * (1 + s3))) as [e5 [B5 E5]]. rewrite E5.
+  match goal with |- context [rnd ?a] => destruct (rnd_rel a) as [e6 [B6 E6]]; rewrite E6 end.
+  match goal with |- Rabs ?d <= _ =>
+    replace d with ((t * t) * ((1 + s4) * (1 + e6) - 1)
+                    + (x * x) * (- ((1 + ((1 + ((1 + s1) * (1 + e4) - 1)) * (1 + e5) - 1)) * (1 + e6) - 1))
+                    + (y * y) * (- ((1 + ((1 + ((1 + s2) * (1 + e4) - 1)) * (1 + e5) - 1)) * (1 + e6) - 1))
+                    + (z * z) * (- ((1 + ((1 + s3) * (1 + e5) - 1)) * (1 + e6) - 1))) by ring end.
+  replace (t * t + x * x + y * y + z * z) with (Rabs (t * t) + Rabs (x * x) + Rabs (y * y) + Rabs (z * z)) by (rewrite !Rabs_right by nra; reflexivity).
+  pose proof g_order as [? [? [? [? [? [? ?]]]]]].
+  apply weighted4; rewrite ?Rabs_Ropp.
+  - eapply weaken; [apply mulerr; eassumption | unfold h4, h3, h2 in *; nra].
+  - eapply weaken; [apply mulerr; [apply mulerr; [apply mulerr|]|]; eassumption | unfold h4, h3, h2; lra].
+  - eapply weaken; [apply mulerr; [apply mulerr; [apply mulerr|]|]; eassumption | unfold h4, h3, h2; lra].
+  - eapply weaken; [apply mulerr; [apply mulerr|]; eassumption | unfold h4, h3, h2 in *; nra].
+Qed.
